@@ -12,6 +12,17 @@ K3 = "ws-malformed-fragmentation-accepted"
 K4 = "ws-accept-key-truncated-at-987"
 
 
+def driver():
+    """Build harness/ws_drv.c against the current tree.  Selftest facility: VERIF_WS_MUTANT=<path of a mutated copy
+    of ws.c> compiles that copy into the driver, where it takes precedence over the library's ws.c object."""
+    srcs = ["ws_drv.c"]
+    m = os.environ.get("VERIF_WS_MUTANT")
+    if m:
+        vkit.log("[selftest] linking mutated ws.c copy %s" % m)
+        srcs.append(os.path.abspath(m))
+    return vkit.cc("ws_drv", srcs)
+
+
 # ------------------------------------------------------------------ TLC glue
 def tv(v):
     if isinstance(v, bool):
@@ -380,7 +391,7 @@ def run_records(chk, exe, recs, rnd, *, label, singles, multis, k2_open, bytewis
 
 
 def replay_c31(case, seed):
-    exe = vkit.cc("ws_drv", ["ws_drv.c"])
+    exe = driver()
     c = case["case"]
     o = vkit.run_driver(exe, [c["scenario"]])[0]
     msg = compare_c31(c["rec"], o)
